@@ -195,6 +195,7 @@ int EGLPNUM_TYPENAME_ILLwrite_lp (
 	EGLPNUM_TYPE *colCoef = NULL;
 	int *colInRow = NULL;
 	const char *objname;
+	char defobj[ILL_namebufsize];
 
 	ILL_FAILfalse (lp, "called without data\n");
 	ILL_FAILfalse (lp->colnames != NULL, "lp->colnames != NULL");
@@ -217,8 +218,16 @@ int EGLPNUM_TYPENAME_ILLwrite_lp (
 	rval = fix_names (collector, lp->colnames, lp->nstruct, NULL, 'x', &colnames);
 	CHECKRVALG (rval, CLEANUP);
 
+	/* an objective without a name is called "obj" - unless a row has that name
+	 * (the reader refuses a repeated row name): then the first free obj_<k> */
+	strcpy (defobj, "obj");
+	if (lp->objname == (char *) NULL && lp->rowtab.tablesize > 0)
+	{
+		rval = ILLsymboltab_uname (&lp->rowtab, defobj, "", NULL);
+		CHECKRVALG (rval, CLEANUP);
+	}
 	rval = fix_names (collector, lp->rownames, lp->nrows,
-										(lp->objname) ? lp->objname : "obj", 'c', &rownames);
+										(lp->objname) ? lp->objname : defobj, 'c', &rownames);
 	CHECKRVALG (rval, CLEANUP);
 	objname = rownames[lp->nrows];
 
@@ -660,7 +669,10 @@ static int fix_names (
 					ILL_FAILfalse (ind == j, "ind == j");
 				}
 				if (extra != NULL)
+				{
 					ILLsymboltab_register (symtab, extra, -1, &ind, &hit);
+					ILL_FAILtrue (hit, "the extra name must differ from the names");
+				}
 			}
 			rval = ILLsymboltab_uname (symtab, buf, p1, p2);
 			CHECKRVALG (rval, CLEANUP);
